@@ -1,21 +1,29 @@
 #!/bin/sh
-# development-time helper: confirm a seeded mutation and run the property's check against it.
+# development-time helper: confirm a seeded mutation and run the property's check against it, in isolation.
 #   ./seedtest.sh C41 /tmp/mut-out/C41 "<demo cmd run at the worktree root>" [pkg-to-test ...]
-# 1. scratch worktree: demo passes without the patch, fails with it; listed package tests pass with it
-# 2. apply to /repo, run ./check <id>, revert
+# Uses a scratch worktree of /repo main (patch applied) and a scratch worktree of /verif main (/work/v-seed),
+# so neither /repo nor /verif/coq is disturbed.  Official confirmation = git -C /repo apply; ./check; checkout.
 ID=$1; DIR=$2; DEMO=$3; shift 3
 export GOFLAGS=-mod=mod GOPROXY=off
 WT=/tmp/seedchk-$ID
+SV=/work/v-seed-$ID
 git -C /repo worktree remove --force $WT 2>/dev/null; git -C /repo branch -D seedchk-$ID 2>/dev/null
-git -C /repo worktree add -q $WT -b seedchk-$ID || exit 2
+git -C /repo worktree add -q $WT -b seedchk-$ID main || exit 2
+git -C /verif worktree remove --force $SV 2>/dev/null; git -C /verif branch -D seed-$ID 2>/dev/null
+git -C /verif worktree add -q $SV -b seed-$ID main || exit 2
 cd $WT
 echo "== demo WITHOUT patch (must pass)"; sh -c "$DEMO" >/tmp/seedchk-$ID.nopatch.log 2>&1; echo "rc=$?"
 git apply $DIR/patch.diff || { echo "PATCH DOES NOT APPLY"; exit 2; }
 echo "== build"; go build ./... 2>&1 | tail -3
 echo "== demo WITH patch (must fail)"; sh -c "$DEMO" >/tmp/seedchk-$ID.patch.log 2>&1; echo "rc=$?"
 for p in "$@"; do echo "== go test $p (with patch)"; go test -vet=off -count=1 -timeout 25m $p 2>&1 | tail -3; done
+# remove the demo file(s) again so the check sees only the source change
+git status --short | grep '^??' | awk '{print $2}' | xargs -r rm -rf
+cd $SV
+echo "== ./check $ID against the patched tree"
+VERIF_REPO=$WT ./check $ID > /tmp/seedchk-$ID.check.log 2>&1; echo "check rc=$?"; grep -E "^VIOLATION|^KNOWN" /tmp/seedchk-$ID.check.log; tail -1 /tmp/seedchk-$ID.check.log
+ls $SV/replay 2>/dev/null | head -3
+cp $SV/replay/*.json /tmp/seedchk-$ID.replay.json 2>/dev/null
 cd /verif
 git -C /repo worktree remove --force $WT; git -C /repo branch -D seedchk-$ID -q
-echo "== ./check $ID against /repo with the patch applied"
-git -C /repo apply $DIR/patch.diff && ./check $ID; echo "check rc=$?"
-git -C /repo checkout -- . ; git -C /repo status --short | head
+git -C /verif worktree remove --force $SV; git -C /verif branch -D seed-$ID -q
